@@ -15,6 +15,7 @@ Local Open Scope N_scope.
 
 (* ---- all conjuncts of the quantifier ---------------------------------------------------------- *)
 Record quantified (e : entity) : Prop := mkQd {
+  q_enums : decl_enums_ok e = true;
   q_name : name_ok (e_name e) = true;
   q_pkg : pkg_ok (e_pkg e) = true;
   q_base : (is_nil (e_base_url e) || (rel_path_ok (e_base_url e) && is_nil (colon_params (e_base_url e)))) = true;
@@ -26,14 +27,14 @@ Record quantified (e : entity) : Prop := mkQd {
   q_events : forallb (fun ev => type_name_ok (ev_name ev) && fields_wf (ev_fields ev) && forallb (ref_ok e) (ev_fields ev))
                      (e_events e) = true;
   q_event_opts : nodup_bytes (map (fun ev => to_snake (to_lower_camel (ev_name ev))) (e_events e)) = true;
-  q_commands : forallb (fun c => match c_name c with Some n => type_name_ok n | None => true end
+  q_commands : forallb (fun c => match c_name c with Some n => name_ok n | None => true end
                        && match c_base c with Some b => rel_path_ok b && is_nil (colon_params b) | None => true end
                        && forallb (method_wf e) (c_methods c)
                        && nodup_bytes (map md_name (c_methods c))) (e_commands e) = true;
   q_summaries : forallb (fun s => (is_nil (s_name s) || name_ok (s_name s)) && fields_wf (s_fields s)
                        && forallb (ref_ok e) (s_fields s)) (e_summaries e) = true;
   q_summary_names : nodup_bytes (map s_name (e_summaries e)) = true;
-  q_schemas : forallb (fun s => type_name_ok (schema_name s) && fields_wf (schema_fields s) && forallb (ref_ok e) (schema_fields s))
+  q_schemas : forallb (fun s => name_ok (schema_name s) && fields_wf (schema_fields s) && forallb (ref_ok e) (schema_fields s))
                       (e_schemas e) = true;
   q_main : nodup_bytes (sp_main_scope e) = true;
   q_service : nodup_bytes (sp_service_scope e) = true;
@@ -519,7 +520,8 @@ Definition all_nodup_l (l : list (list bytes)) : Prop := Forall (fun sc => NoDup
 Lemma status_values_names_n : forall p l n0, map fst (status_values_n p l n0) = sp_enum_values_n p l n0.
 Proof.
   intros p [|s r] n0; [reflexivity|]. cbn [status_values_n sp_enum_values_n].
-  destruct (has_suffix (bs "UNSPECIFIED") s && (n0 =? 0)); cbn [map fst]; rewrite number_from_names; reflexivity.
+  change (sp_explicit_zero p s) with (is_explicit_zero p s).
+  destruct (is_explicit_zero p s && (n0 =? 0)); cbn [map fst]; rewrite number_from_names; reflexivity.
 Qed.
 Lemma status_values_names : forall p l, map fst (status_values p l) = sp_enum_values p l.
 Proof. intros p l. apply status_values_names_n. Qed.
@@ -603,7 +605,7 @@ Proof.
       - rewrite EP. cbn. now apply cap_not_low. }
     unfold sp_inline_enum_values in Hx. fold P in Hx. destruct os as [|o0 r0].
     + destruct Hx as [<-|[]]. rewrite EP. cbn. now apply cap_not_low.
-    + destruct (has_suffix (bs "UNSPECIFIED") o0).
+    + destruct (sp_explicit_zero P o0).
       * apply in_map_iff in Hx. destruct Hx as [o [<- _]]. apply Hval.
       * destruct Hx as [<-|Hx]; [rewrite EP; cbn; now apply cap_not_low|].
         apply in_map_iff in Hx. destruct Hx as [o [<- _]]. apply Hval.
@@ -701,7 +703,7 @@ Proof.
     - rewrite EP. cbn. now apply cap_not_low. }
   unfold sp_inline_enum_values in Hx. fold P in Hx. destruct os as [|o0 r0].
   - destruct Hx as [<-|[]]. rewrite EP. cbn. now apply cap_not_low.
-  - destruct (has_suffix (bs "UNSPECIFIED") o0).
+  - destruct (sp_explicit_zero P o0).
     + apply in_map_iff in Hx. destruct Hx as [o [<- _]]. apply Hval.
     + destruct Hx as [<-|Hx]; [rewrite EP; cbn; now apply cap_not_low|].
       apply in_map_iff in Hx. destruct Hx as [o [<- _]]. apply Hval.
@@ -1333,13 +1335,116 @@ Proof.
     unfold all_nodup in A. rewrite Forall_forall in A. now apply A.
 Qed.
 
-(* ACCEPTANCE: a declaration in the quantifier that uses no field name the expansion adds itself compiles *)
+(* ---- reserved names: the spec's list (EntitySpec.reserved_free, written from the declaration) is what
+   the model of the compiler checks in two places: the walker's checkReservedNames and visitOneofNode *)
+Lemma forallb_negb_existsb : forall {A} (f : A -> bool) l, forallb (fun x => negb (f x)) l = negb (existsb f l).
+Proof. induction l as [|a l IH]; [reflexivity|]. cbn. rewrite IH. now destruct (f a), (existsb f l). Qed.
+
+Lemma options_type_free_eq : forall k fs,
+  options_type_free k fs = negb ((k =? 1) && existsb (fun x => named_type (tf_name x)) fs).
+Proof.
+  intros k fs. unfold options_type_free. destruct (k =? 1); [|reflexivity]. cbn [andb].
+  unfold named_type. apply forallb_negb_existsb.
+Qed.
+
+Lemma tfield_type_free_eq : forall t, tfield_type_free t = negb (tfield_type_option t).
+Proof.
+  fix IH 1. intros [n k r o d]. destruct k as [i|i|i|ik c fs os]; try reflexivity.
+  cbn [tfield_type_free tfield_type_option]. rewrite options_type_free_eq.
+  assert (E : forallb tfield_type_free fs = negb (existsb tfield_type_option fs)).
+  { induction fs as [|t fs IHfs]; [reflexivity|]. cbn [forallb existsb]. rewrite IH, IHfs.
+    now destruct (tfield_type_option t), (existsb tfield_type_option fs). }
+  rewrite E. now destruct ((ik =? 1) && existsb (fun x => named_type (tf_name x)) fs), (existsb tfield_type_option fs).
+Qed.
+
+Lemma tree_type_free_eq : forall k fs,
+  tree_type_free k fs = negb (((k =? 1) && existsb (fun x => named_type (tf_name x)) fs) || existsb tfield_type_option fs).
+Proof.
+  intros k fs. unfold tree_type_free. rewrite options_type_free_eq.
+  assert (E : forallb tfield_type_free fs = negb (existsb tfield_type_option fs)).
+  { induction fs as [|t fs IHfs]; [reflexivity|]. cbn [forallb existsb]. rewrite tfield_type_free_eq, IHfs.
+    now destruct (tfield_type_option t), (existsb tfield_type_option fs). }
+  rewrite E. now destruct ((k =? 1) && existsb (fun x => named_type (tf_name x)) fs), (existsb tfield_type_option fs).
+Qed.
+
+Lemma forallb_ext_in : forall {A} (f g : A -> bool) l, (forall x, f x = g x) -> forallb f l = forallb g l.
+Proof. intros A f g l H. induction l as [|a l IH]; [reflexivity|]. cbn. now rewrite H, IH. Qed.
+
+Theorem reserved_free_split : forall e, reserved_free e = walker_reserved_free e && oneof_type_free e.
+Proof.
+  intros e. unfold reserved_free, walker_reserved_free, oneof_type_free.
+  assert (K : forallb (fun k => negb (key_in_path k && existsb (bytes_eqb (to_snake (key_name k))) [bs "page"; bs "query"])) (e_keys e)
+              = forallb (fun k => negb (path_key_reserved k)) (e_keys e)).
+  { apply forallb_ext_in. intros k. unfold key_in_path, key_typed, key_primary, key_name, path_key_reserved, is_key_field, is_primary.
+    cbn [existsb]. rewrite orb_false_r. reflexivity. }
+  assert (B : forallb (fun s => match s with
+                       | SOneof _ opts => forallb (fun u => negb (bytes_eqb (to_snake (uf_name u)) (bs "type"))) opts
+                       | _ => true end) (e_schemas e)
+              = forallb (fun s => match s with
+                    | SOneof _ opts => negb (existsb (fun u => named_type (uf_name u)) opts)
+                    | _ => true end) (e_schemas e)).
+  { apply forallb_ext_in. intros [n fs|n opts|n os]; try reflexivity. unfold named_type. apply forallb_negb_existsb. }
+  assert (I : forallb (fun u => match uf_kind u with
+                        | KInlineOneof opts => forallb (fun o => negb (bytes_eqb (to_snake (sf_name o)) (bs "type"))) opts
+                        | KInlineTree k fs => tree_type_free k fs
+                        | _ => true end) (all_ufields e)
+              = negb (existsb ufield_type_option (all_ufields e))).
+  { rewrite <- forallb_negb_existsb. apply forallb_ext_in. intros u. unfold ufield_type_option.
+    destruct (uf_kind u); try reflexivity.
+    - unfold named_type. apply forallb_negb_existsb.
+    - apply tree_type_free_eq. }
+  rewrite K, B, I. unfold response_name, own_response_name, events_in_get.
+  repeat match goal with |- context [forallb ?f ?l] => let b := fresh "b" in generalize (forallb f l); intro b end.
+  repeat match goal with |- context [negb ?x] => let b := fresh "b" in generalize (negb x); intro b end.
+  intros. repeat match goal with b : bool |- _ => destruct b end; reflexivity.
+Qed.
+
+Lemma convert_expand : forall e cs, convert e = Ok cs -> expand e = Ok cs.
+Proof. intros e cs H. exact (proj1 (compile_ok_inv e cs H)). Qed.
+
+(* ACCEPTANCE: a declaration in the quantifier that uses no name the expansion reserves compiles *)
 Theorem acceptance : forall e, in_quantifier e = true -> reserved_free e = true -> exists cs, compile e = Ok cs.
 Proof.
   intros e Hq Hr. pose proof (quantified_of e Hq) as Q. destruct (convert_accepts e Q) as [fl Hc].
   exists (expand_with e fl). unfold compile, compile_file. cbn [existsb].
   destruct (e_status e) as [|s0 sr] eqn:Es; [exfalso; exact (q_status_ne e Q Es)|]. cbn [is_nil orb].
+  pose proof Hr as Hr'. rewrite reserved_free_split in Hr'. apply andb_true_iff in Hr'. destruct Hr' as [Hw Ho].
+  rewrite walk_all_single. unfold walk. rewrite Hw, (convert_expand _ _ Hc). cbn [forallb]. rewrite Ho, (q_enums e Q). cbn [andb].
   rewrite convert_all_single, Hc, app_nil_r, (link_accepts e fl Q Hr). reflexivity.
+Qed.
+
+(* THE CONVERSE: a declaration in the quantifier that uses a reserved name is rejected, by the reserved-name
+   diagnostic (not by a link error) *)
+Theorem reserved_rejected : forall e, in_quantifier e = true -> reserved_free e = false ->
+  compile e = Err "reserved name".
+Proof.
+  intros e Hq Hr. pose proof (quantified_of e Hq) as Q. destruct (convert_accepts e Q) as [fl Hc].
+  unfold compile, compile_file. cbn [existsb].
+  destruct (e_status e) as [|s0 sr] eqn:Es; [exfalso; exact (q_status_ne e Q Es)|]. cbn [is_nil orb].
+  rewrite reserved_free_split in Hr. rewrite walk_all_single. unfold walk.
+  destruct (walker_reserved_free e); [|reflexivity]. cbn [andb] in Hr.
+  rewrite (convert_expand _ _ Hc). cbn [forallb]. rewrite Hr. reflexivity.
+Qed.
+
+(* whatever the declaration: the model of the compiler never accepts a reserved name *)
+Theorem accepted_reserved_free : forall e cs, compile e = Ok cs -> reserved_free e = true.
+Proof.
+  intros e cs H. destruct (compile_inv_reserved e cs H) as [Hw Ho]. rewrite reserved_free_split, Hw, Ho. reflexivity.
+Qed.
+
+(* the compiler fails on a declaration of the quantifier IF AND ONLY IF it uses a reserved name *)
+Theorem fails_exactly_on_reserved : forall e, in_quantifier e = true ->
+  ((exists s, compile e = Err s) <-> reserved_free e = false)
+  /\ (compile e = Err "reserved name" <-> reserved_free e = false)
+  /\ ((exists cs, compile e = Ok cs) <-> reserved_free e = true).
+Proof.
+  intros e Hq. destruct (reserved_free e) eqn:Hr.
+  - destruct (acceptance e Hq Hr) as [cs Hc]. repeat split; try discriminate; try (intros _; now exists cs).
+    + intros [s Hs]. rewrite Hc in Hs. discriminate.
+    + intros Hs. rewrite Hc in Hs. discriminate.
+  - pose proof (reserved_rejected e Hq Hr) as Hc. repeat split; try (intros _; assumption); try discriminate.
+    + intros _. now exists "reserved name"%string.
+    + intros [cs Hs]. rewrite Hc in Hs. discriminate.
 Qed.
 
 (* the FULL statement of C17 for every declaration without reserved names *)
@@ -1354,8 +1459,8 @@ Qed.
 Definition page_entity : entity :=
   mkE (bs "foo.v1") (bs "Page") [] [mkK (mkU (bs "fooId") (KKey true None None) false false) false]
       [] [bs "ACTIVE"] [] [] [] None [].
-Theorem entity_named_page_refuted :
-  in_quantifier page_entity = true /\ compile page_entity = Err "symbol already defined".
+Theorem entity_named_page_rejected :
+  in_quantifier page_entity = true /\ compile page_entity = Err "reserved name".
 Proof. split; vm_compute; reflexivity. Qed.
 
 (* ---- the literal default paths, with the clean-path fact derived from the quantifier ---------------- *)
@@ -1484,7 +1589,7 @@ Proof.
   { destruct (existsb (fun e => is_nil (e_status e)) es) eqn:E; [|reflexivity]. apply existsb_exists in E.
     destruct E as [e [He Hn]]. rewrite Forall_forall in HQ. pose proof (q_status_ne e (HQ e He)) as Hne.
     destruct (e_status e); [congruence|discriminate]. }
-  rewrite Hst, Hc.
+  rewrite Hst.
   assert (Hl : link_ok (concat l) = true).
   { unfold link_ok, scopes. apply forallb_forall. intros sc Hin. apply nodup_bytes_NoDup.
     apply in_app_or in Hin. destruct Hin as [Hin|Hin].
@@ -1493,7 +1598,19 @@ Proof.
       + rewrite (file_scopes_concat es l 1 sp_service_scope HF service_scope_eq). now apply nodup_bytes_NoDup.
       + rewrite (file_scopes_concat es l 2 sp_topic_scope HF topic_scope_eq). now apply nodup_bytes_NoDup.
     - pose proof (inner_scopes_concat es l HF Hall) as A. unfold all_nodup in A. rewrite Forall_forall in A. now apply A. }
-  now rewrite Hl.
+  assert (Hw : exists w, walk_all es = Ok w).
+  { clear Hc Hl HF Hst H F F0 F1. induction HF2 as [|e cs es l [_ Hcv] _ IH]; [now exists []|].
+    inversion Hall as [|? ? [_ Hr] Hall']; subst. inversion HQ as [|? ? _ HQ']; subst.
+    destruct (IH Hall' HQ') as [w Hw]. exists (cs ++ w). cbn [walk_all]. unfold walk.
+    rewrite reserved_free_split in Hr. apply andb_true_iff in Hr. destruct Hr as [Hr _].
+    now rewrite Hr, (convert_expand _ _ Hcv), Hw. }
+  destruct Hw as [w Hw]. rewrite Hw.
+  assert (Ho : forallb oneof_type_free es = true).
+  { apply forallb_forall. intros e He. rewrite Forall_forall in Hall. destruct (Hall e He) as [_ Hr].
+    rewrite reserved_free_split in Hr. apply andb_true_iff in Hr. exact (proj2 Hr). }
+  assert (He : forallb decl_enums_ok es = true).
+  { apply forallb_forall. intros e He. rewrite Forall_forall in HQ. exact (q_enums e (HQ e He)). }
+  rewrite Ho, He, Hc, Hl. reflexivity.
 Qed.
 
 Theorem file_acceptance : forall es, file_quantifier es = true -> exists cs, compile_file es = Ok cs.
